@@ -28,7 +28,11 @@ CONFIG = {
                    'formulas and seeded random CTL* formulas (quantifier '
                    'nesting <=2, <=3 temporal operators per quantifier) on '
                    'small-scope and random structures is judged against '
-                   'refsem.star; nested calls are judged separately.'),
+                   'refsem.star; nested calls are judged separately.'
+                   ' Also: labels that spell the fresh-atom names of the'
+                   " formula's own quantified subformulas, the same path formula"
+                   ' under A and E, n-ary path combinations, three-level'
+                   ' quantifier nesting.'),
     'level_note': ('Trusted base: vmon/refsem.py Star (cross-checked with '
                    'refsem.ctl on every CTL-shaped case of the run), neutral '
                    'forms.'),
